@@ -325,6 +325,49 @@ def cli_c08(v, tier, seed):
 # C09 pushes compose
 
 
+def c09_type_change_case(r, seed):
+    """directed shape (known finding D28): within the series a path changes between file and directory - a file is deleted and
+    a later patch creates something below its name, or the last file of a directory is deleted and a later patch creates a
+    file with the directory's name.  Pushed patch by patch this works; the statement wants one invocation to do the same."""
+    variant = r.choice(["file-becomes-directory", "directory-becomes-file"])
+    base = r.choice(["node", "src/thing", "a/b/c"])
+    keep = b"k1\nk2\nk3\n"
+    t0 = {"keep.txt": (keep, 0o644)}
+    if variant == "file-becomes-directory":
+        old, new = base, base + "/" + r.choice(["inner.txt", "x/y.c"])
+    else:
+        old, new = base + "/" + r.choice(["only.txt", "deep/only.c"]), base
+    t0[old] = (b"the old content\n", r.choice([0o644, 0o755]))
+    op1 = wsgen.Op("delete", old, pre=t0[old][0], post=None, pre_mode=t0[old][1], post_mode=None)
+    op1.style = "devnull"
+    op2 = wsgen.Op("create", new, pre=None, post=b"the new content\n", pre_mode=None, post_mode=0o644)
+    op2.style = "devnull"
+    opk = wsgen.Op("modify", "keep.txt", pre=keep, post=b"k1\nK2\nk3\n", pre_mode=0o644, post_mode=0o644)
+    seqs = [[op1]]
+    if r.random() < 0.5:
+        seqs.append([opk])
+    seqs.append([op2])
+    ws = wsgen.Workspace()
+    ws.seed = seed
+    ws.t0 = dict(t0)
+    ws.trees = [dict(t0)]
+    cur = dict(t0)
+    for i, ops in enumerate(seqs):
+        pt = wsgen.PatchSpec("t%02d.patch" % i, ops, 1, False, False)
+        wsgen.render_patch(pt, r)
+        ws.patches.append(pt)
+        cur = dict(cur)
+        for o in ops:
+            if o.post is None:
+                del cur[o.path]
+            else:
+                cur[o.path] = (o.post, o.post_mode)
+        ws.trees.append(cur)
+    ws.fail_at = None
+    ws.no_goal_truth = True
+    return ws
+
+
 def c09_worker(item):
     seed, binary = item
     r = random.Random(seed * 15485863 + 9)
@@ -338,6 +381,11 @@ def c09_worker(item):
         ws = c16_names_case(r, seed, binary, Res(), only_workspace=True)
         ws.no_goal_truth = True
         res.count("differing-names-workspaces")
+    shape = None
+    if r.random() < 0.02:
+        ws = c09_type_change_case(r, seed)
+        shape = "path-changes-between-file-and-directory"
+        res.count("shape:" + shape)
     if r.random() < 0.1 and not getattr(ws, "no_goal_truth", False) and wsgen.add_newdir_reject(ws, r):
         res.count("shape:reject-in-a-directory-created-by-this-run")
     if r.random() < 0.15:
@@ -440,6 +488,8 @@ def c09_worker(item):
                 break
         o2 = cli.observe(split)
         sig0 = {"backup": str(backup)}
+        if shape:
+            sig0["shape"] = shape
         detail = None
         if r1.crashed() or (rs is not None and rs.crashed()):
             bad = r1 if r1.crashed() else rs
